@@ -197,12 +197,9 @@ func (db *GoBadgerDB) Iterator(start, end []byte, reverse bool) Iterator {
 	if bytes.Equal(end, types.EmptyValue) {
 		end = nil
 	}
-	if reverse {
-		it.Seek(end)
-	} else {
-		it.Seek(start)
-	}
-	return &goBadgerDBIt{it, itBase{start, end, reverse}, txn, nil}
+	dbit := &goBadgerDBIt{it, itBase{start, end, reverse}, txn, nil}
+	dbit.seekFirst()
+	return dbit
 }
 
 type goBadgerDBIt struct {
@@ -220,12 +217,22 @@ func (it *goBadgerDBIt) Next() bool {
 
 // Rewind ...
 func (it *goBadgerDBIt) Rewind() bool {
-	if it.reverse {
-		it.Seek(it.end)
-	} else {
-		it.Seek(it.start)
-	}
+	it.seekFirst()
 	return it.Valid()
+}
+
+// seekFirst positions the iterator on the first key of [start, end) in iteration
+// order. The end bound is exclusive, as in the other backends: a reverse seek that
+// lands exactly on it steps over it.
+func (it *goBadgerDBIt) seekFirst() {
+	if !it.reverse {
+		it.Iterator.Seek(it.start)
+		return
+	}
+	it.Iterator.Seek(it.end)
+	if it.end != nil && it.Iterator.Valid() && bytes.Equal(it.Key(), it.end) {
+		it.Iterator.Next()
+	}
 }
 
 // Seek 查找
